@@ -389,9 +389,29 @@ Definition two64 : N := 18446744073709551616.
 Definition is_valid_checkpoint (now_slot slot max_age : N) : bool :=
   ((now_slot * K_LC_SECONDS_PER_SLOT + two64 - (slot * K_LC_SECONDS_PER_SLOT) mod two64) mod two64) <? max_age.
 
+(* the store bootstrap() writes: a FRESH LightClientStore literal - every field is assigned, the next committee is absent *)
+Definition store_of_bootstrap (b : bootstrap_data) : store :=
+  mkStore (b_beacon b) (b_beacon b) (b_committee b) None 0 0.
+
 Definition bootstrap (checkpoint : bytes) (b : bootstrap_data) (now_slot max_age : N) (strict : bool) : res store :=
   if negb (is_valid_checkpoint now_slot (h_slot (b_beacon b)) max_age) && strict then Err E_BOOT_AGE else
   bind (is_current_committee_proof_valid (b_beacon b) (b_committee b) (b_branch b)) (fun committee_valid =>
   if negb (bytes_eqb (htr_lc_header b) checkpoint) then Err E_BOOT_HEADER
   else if negb committee_valid then Err E_BOOT_COMMITTEE
-  else Ok (mkStore (b_beacon b) (b_beacon b) (b_committee b) None 0 0)).
+  else Ok (store_of_bootstrap b)).
+
+(* ------------------------------------------------------------------ histories with bootstrap as an operation
+   Start() retries Sync() up to ten times on the SAME client object, and Sync() begins with bootstrap(): a bootstrap can
+   follow any number of applied updates.  It REPLACES the store (c.Store = LightClientStore{...}); when it fails the store is
+   left as it was (every error return precedes the assignment). *)
+Inductive hist_op : Type :=
+| HMsg (x : wire_step)
+| HBootstrap (checkpoint : bytes) (b : bootstrap_data) (now_slot max_age : N) (strict : bool).
+
+Definition process_op (genesis : bytes) (s : store) (op : hist_op) : store :=
+  match op with
+  | HMsg x => process_wire genesis s x
+  | HBootstrap cp b now_slot max_age strict =>
+      match bootstrap cp b now_slot max_age strict with Ok s' => s' | _ => s end
+  end.
+Definition run_ops (genesis : bytes) (s : store) (l : list hist_op) : store := fold_left (process_op genesis) l s.
